@@ -85,8 +85,21 @@ def rule_enc(rep, S, cap):
                     out += stores(fns["set_size"], {p.get("id"): ceval.conv(a, ir.qtype(p))}, mem, members)
                     continue
                 raise ceval.Unknown("call to %s in a storage primitive" % nm)
-            if n.get("kind") == "ConditionalOperator" or n.get("kind") == "CXXStaticCastExpr":
-                continue            # assert(...) expansion
+            if n.get("kind") == "CXXStaticCastExpr":
+                continue            # assert(...) under NDEBUG
+            if n.get("kind") == "ConditionalOperator":
+                # assert(...) expansion: the condition is folded for this length; an assertion that fails for a valid length stops the program
+                # in every build without NDEBUG
+                c_, a_, b_ = ir.ekids(n)
+                fails = lambda x: any(y.get("kind") == "CallExpr" and (ir.strip(ir.ekids(y)[0]).get("referencedDecl") or {}).get("name") in ("__assert_fail", "abort", "terminate")
+                                      for y in ir.walk_expr(x))
+                if fails(a_) or fails(b_):
+                    ctx = ceval.Ctx(d, env, members)
+                    ctx.arrays = {"m_buffer": mem}
+                    taken = a_ if ceval.ev(c_, ctx) else b_
+                    if fails(taken):
+                        raise ceval.UB("the assertion `%s` fails for this length (a build without NDEBUG stops here)" % ir.show(ir.sx(c_))[:60])
+                continue
             if n.get("kind") in ("BinaryOperator", "CompoundAssignOperator") and n.get("opcode") in ("=", "+=", "-="):
                 lhs, rhs = ir.ekids(n)
                 ctx = ceval.Ctx(d, env, members)
